@@ -462,15 +462,6 @@ theorem foldlM_avg (g : Nat → Except Err (List Rat × List Int)) (k : Rat) (n 
 
 /-! ## §5 the run-out sampler -/
 
-theorem add_mod_inj (c n j j' : Nat) (hj : j < n) (hj' : j' < n) (h : (c + j) % n = (c + j') % n) : j = j' := by
-  have h1 := Nat.sub_mod_eq_zero_of_mod_eq h
-  have h2 := Nat.sub_mod_eq_zero_of_mod_eq h.symm
-  have e1 : c + j - (c + j') = j - j' := by omega
-  have e2 : c + j' - (c + j) = j' - j := by omega
-  rw [e1, Nat.mod_eq_of_lt (by omega)] at h1
-  rw [e2, Nat.mod_eq_of_lt (by omega)] at h2
-  omega
-
 /-- **a sample from a duplicate-free deck**: `k` distinct cards of the deck -/
 theorem sample_spec (sm : Sampler) (deck : List Card) (k i : Nat) (runout : List Card) (hnd : deck.Nodup)
     (h : sm.sample deck k i = .ok runout) :
